@@ -158,7 +158,7 @@ func c17() {
 		}
 	}
 	r0 := caseRand(run, 0)
-	for i := 0; i < run.N(10, 400); i++ {
+	for i := 0; i < run.N(60, 800); i++ {
 		ks = append(ks, r0.Intn(total+1))
 	}
 	for _, k := range ks {
